@@ -36,6 +36,13 @@ NODE = 2
 
 
 def payload(n, salt):
+    if salt % 4 == 1:
+        # mostly zero bytes (whole segments of zeros after non-zero data): an erased / sparse domain
+        return bytes((((i * 29 + salt) % 255) + 1) if i % 23 == salt % 23 else 0 for i in range(n))
+    if salt % 4 == 3 and n > 9:
+        # one zero segment in otherwise dense data
+        z = 7 * ((salt // 4) % max(1, n // 7))
+        return bytes(0 if z <= i < z + 7 else ((i * 29 + salt * 5 + (i >> 7)) % 255) + 1 for i in range(n))
     return bytes(((i * 29 + salt * 5 + (i >> 7)) % 255) + 1 for i in range(n))
 
 
